@@ -131,3 +131,41 @@ pub fn generate(ctx: &mut Ctx) {
         }
     }
 }
+
+// ---------------------------------------------------------------------------------------------
+// tables by execution (`hsverif dump zesc`): the second source of `Hs/Gen/ZincEscapes.lean`.  The reader
+// table is measured by decoding `"\b"` for every byte b (the text must decode to a Str of one character);
+// the writer table by encoding a Str of every Unicode scalar value and keeping the two-byte escapes.
+// ---------------------------------------------------------------------------------------------
+pub fn dump_tables() {
+    let mut reader: Vec<(u32, u32)> = Vec::new();
+    for b in 0u8..=255 {
+        if b >= 0x80 {
+            continue; // not a character on its own
+        }
+        let text = format!("\"\\{}\"", b as char);
+        let r = std::panic::catch_unwind(|| from_str(&text));
+        if let Ok(Ok(Value::Str(s))) = r {
+            let cs: Vec<char> = s.value.chars().collect();
+            if cs.len() == 1 {
+                reader.push((b as u32, cs[0] as u32));
+            }
+        }
+    }
+    let other = match std::panic::catch_unwind(|| from_str("\"\\u0041\"")) {
+        Ok(Ok(Value::Str(s))) if s.value == "A" => 1,
+        _ => 0,
+    };
+    let mut writer: Vec<(u32, u32)> = Vec::new();
+    for c in (0u32..=0x10FFFF).filter_map(char::from_u32) {
+        let v = Value::make_str(&c.to_string());
+        if let Ok(Ok(t)) = std::panic::catch_unwind(|| to_zinc_string(&v)) {
+            let bs = t.as_bytes();
+            if bs.len() == 4 && bs[0] == b'"' && bs[1] == b'\\' && bs[3] == b'"' {
+                writer.push((c as u32, bs[2] as u32));
+            }
+        }
+    }
+    let show = |v: &Vec<(u32, u32)>| v.iter().map(|(a, b)| format!("[{a},{b}]")).collect::<Vec<_>>().join(",");
+    println!("{{\"read\":[{}],\n\"write\":[{}],\n\"otherArms\":{}}}", show(&reader), show(&writer), other);
+}
